@@ -14,6 +14,7 @@ import os
 import re
 
 from . import py2lean as P
+from . import gen_c14_scan
 
 CLASSES = ["EOL", "SPC", "NONSPC", "HEX", "END_LITERAL", "END_HEX_STRING", "END_NUMBER", "END_KEYWORD",
            "END_STRING", "OCT_STRING"]
@@ -164,4 +165,4 @@ def generate(lean_dir: str):
     out.append("end PdfVerif.Gen.LexTables\n")
     path = os.path.join(lean_dir, "PdfVerif", "Gen", "LexTables.lean")
     P.write_if_changed(path, "".join(out))
-    return [path]
+    return [path] + gen_c14_scan.generate(lean_dir, mod)
